@@ -3,6 +3,8 @@ package families
 import (
 	"encoding/hex"
 	"fmt"
+	"sort"
+	"strings"
 
 	"verif/internal/ag"
 	"verif/internal/spec"
@@ -24,7 +26,7 @@ type altShape struct {
 	rules func() []ag.Rule
 }
 
-func lit(s string) *ag.Expr { return ag.L(s) }
+func lit(s string) *ag.Expr    { return ag.L(s) }
 func rng(lo, hi rune) *ag.Expr { return ag.C(ag.R(lo, hi)) }
 
 func f2Pool() []altShape {
@@ -76,6 +78,8 @@ func f2DisjointPool() []altShape {
 		{"<w>x", func() *ag.Expr { return ag.S(ag.U(ag.Cap, lit("w")), lit("x")) }, nil},
 		{"{}y", func() *ag.Expr { return ag.S(ag.Action(), lit("y")) }, nil},
 		{"R?z", func() *ag.Expr { return ag.S(ag.U(ag.Opt, ag.N("R")), lit("z")) }, rT},
+		{"({}A)?B", func() *ag.Expr { return ag.S(ag.U(ag.Opt, ag.S(ag.Action(), lit("A"))), lit("B")) }, nil},
+		{"<C?>{}D", func() *ag.Expr { return ag.S(ag.U(ag.Cap, ag.U(ag.Opt, lit("C"))), ag.Action(), lit("D")) }, nil},
 	}
 }
 
@@ -304,6 +308,13 @@ func F4(maxLen int, variants []string) []*Case {
 		func() *ag.Expr { return ag.C(ag.R('9', '0'), one('b')) },
 		func() *ag.Expr { return ag.CN(ag.R('z', 'a')) },
 		func() *ag.Expr { return ag.C(ag.R('a', 'c'), ag.R('z', 'y')) },
+		// members that overlap, contain each other or touch
+		func() *ag.Expr { return ag.C(ag.R('a', 'z'), one('m')) },
+		func() *ag.Expr { return ag.C(ag.R('a', 'e'), ag.R('c', 'd'), one('_')) },
+		func() *ag.Expr { return ag.C(ag.R('c', 'f'), ag.R('a', 'd')) },
+		func() *ag.Expr { return ag.CN(ag.R('a', 'z'), one('m')) },
+		func() *ag.Expr { return ci(ag.R('a', 'z'), one('Q')) },
+		func() *ag.Expr { return ag.C(ag.R('a', 'c'), ag.R('d', 'f'), one('b'), one('b')) },
 	}
 	var out []*Case
 	idx := 0
@@ -586,20 +597,20 @@ func F12(maxLen int, variants []string) []*Case {
 		func() *ag.Expr { return ag.A(ag.S(ag.U(ag.Plus, A()), lit("b")), lit("b")) },
 	}
 	aBodies := []func() *ag.Expr{
-		func() *ag.Expr { return ag.U(ag.Not, ag.U(ag.Star, a())) },       // never
-		func() *ag.Expr { return ag.U(ag.Not, ag.U(ag.Opt, B())) },        // never
-		func() *ag.Expr { return ag.U(ag.And, ag.U(ag.Star, a())) },       // always, empty
-		func() *ag.Expr { return ag.U(ag.Star, a()) },                     // always
-		func() *ag.Expr { return ag.A(a(), ag.E()) },                      // always
-		func() *ag.Expr { return ag.Action() },                            // always, token
-		func() *ag.Expr { return ag.U(ag.Not, B()) },                      // sometimes, empty
-		func() *ag.Expr { return ag.U(ag.And, B()) },                      // sometimes, empty
-		func() *ag.Expr { return ag.U(ag.Opt, B()) },                      // always
-		func() *ag.Expr { return ag.U(ag.Cap, ag.U(ag.Star, a())) },       // always, token
-		func() *ag.Expr { return ag.S(B(), lit("c")) },                    // records a token, may fail after it
-		func() *ag.Expr { return ag.S(ag.U(ag.Cap, b()), lit("c")) },      // records a token, may fail after it
-		func() *ag.Expr { return ag.S(ag.Action(), b(), lit("c")) },       // records a token, may fail after it
-		func() *ag.Expr { return ag.S(ag.U(ag.Not, ag.D())) },             // only at the end
+		func() *ag.Expr { return ag.U(ag.Not, ag.U(ag.Star, a())) },  // never
+		func() *ag.Expr { return ag.U(ag.Not, ag.U(ag.Opt, B())) },   // never
+		func() *ag.Expr { return ag.U(ag.And, ag.U(ag.Star, a())) },  // always, empty
+		func() *ag.Expr { return ag.U(ag.Star, a()) },                // always
+		func() *ag.Expr { return ag.A(a(), ag.E()) },                 // always
+		func() *ag.Expr { return ag.Action() },                       // always, token
+		func() *ag.Expr { return ag.U(ag.Not, B()) },                 // sometimes, empty
+		func() *ag.Expr { return ag.U(ag.And, B()) },                 // sometimes, empty
+		func() *ag.Expr { return ag.U(ag.Opt, B()) },                 // always
+		func() *ag.Expr { return ag.U(ag.Cap, ag.U(ag.Star, a())) },  // always, token
+		func() *ag.Expr { return ag.S(B(), lit("c")) },               // records a token, may fail after it
+		func() *ag.Expr { return ag.S(ag.U(ag.Cap, b()), lit("c")) }, // records a token, may fail after it
+		func() *ag.Expr { return ag.S(ag.Action(), b(), lit("c")) },  // records a token, may fail after it
+		func() *ag.Expr { return ag.S(ag.U(ag.Not, ag.D())) },        // only at the end
 		func() *ag.Expr { return ag.S(ag.U(ag.Opt, a()), ag.U(ag.Not, b())) },
 	}
 	bBodies := []func() *ag.Expr{
@@ -806,7 +817,6 @@ func NestedCaptures(maxLen int, variants []string) []*Case {
 	return out
 }
 
-
 // ---------------------------------------------------------------- F16: blank-like rules in front of inlined rules
 
 // F16: Z always succeeds and may consume ('b'*), and is used several times (so it is called, not
@@ -848,9 +858,31 @@ func F16(maxLen int, variants []string) []*Case {
 			}
 		}
 	}
+	// guards: a rule that can never succeed (a negative lookahead over something that always succeeds)
+	// or always succeeds, in front of an alternative with captures and actions; the next alternative
+	// matches the same text. The guard is referenced twice, so it stays a call under -inline.
+	guards := []func() *ag.Expr{
+		func() *ag.Expr { return ag.S(ag.U(ag.Not, Z()), ag.Action()) },
+		func() *ag.Expr { return ag.S(ag.U(ag.And, Z()), ag.Action()) },
+		func() *ag.Expr { return ag.S(ag.U(ag.Not, ag.U(ag.Opt, lit("b"))), ag.Action()) },
+		func() *ag.Expr { return ag.S(ag.U(ag.Not, ag.E()), ag.Action()) },
+		func() *ag.Expr { return ag.U(ag.Not, ag.U(ag.Not, Z())) },
+	}
+	for _, gb := range guards {
+		for _, zb := range zBodies {
+			G := func() *ag.Expr { return ag.N("G") }
+			item := ag.A(ag.S(G(), ag.U(ag.Cap, lit("a")), ag.Action()), ag.S(ag.U(ag.Cap, lit("a")), ag.Action()), ag.S(G(), lit("x")), lit("b"))
+			g := ag.G(fmt.Sprintf("F16/%d", idx), ag.Rule{Name: "S", Body: ag.S(ag.U(ag.Plus, item), nd())}, ag.Rule{Name: "G", Body: gb()}, ag.Rule{Name: "Z", Body: zb()})
+			idx++
+			g.Number()
+			if !wellFormed(g) {
+				continue
+			}
+			out = append(out, &Case{Family: "F16", G: g, Sigma: strs('a', 'b', 'x'), MaxLen: maxLen, Variants: variants, Mode: spec.ModeBehaviour})
+		}
+	}
 	return out
 }
-
 
 // ---------------------------------------------------------------- F4L: every letter, case-insensitively
 
@@ -881,7 +913,6 @@ func F4L(maxLen int, variants []string) []*Case {
 	}
 	return out
 }
-
 
 // ---------------------------------------------------------------- F17: many actions; F18: positions in multi-line text
 
@@ -936,20 +967,26 @@ func F18(maxLen int, variants []string) []*Case {
 		ag.Rule{Name: "S", Body: ag.S(ag.U(ag.Star, ag.N("L")), lit("x"))},
 		ag.Rule{Name: "L", Body: ag.S(ag.U(ag.Star, ag.N("W")), ag.U(ag.Cap, lit("\n")))},
 		ag.Rule{Name: "W", Body: ag.A(lit("a"), lit("é"), ag.S(lit("\r"), ag.U(ag.And, lit("\n"))))})
+	// runes that some tools treat as line ends (NEL, LINE SEPARATOR, form feed): for peg only \n starts a line
+	g3 := ag.G("F18/2",
+		ag.Rule{Name: "S", Body: ag.S(ag.U(ag.Plus, ag.N("W")), lit("x"), ag.U(ag.Not, ag.D()))},
+		ag.Rule{Name: "W", Body: ag.A(lit("a"), lit("\u2028"), lit("\u0085"), lit("\f"), lit("\n"))})
 	var out []*Case
-	for _, g := range []*ag.Grammar{g1, g2} {
+	for _, g := range []*ag.Grammar{g1, g2, g3} {
 		g.Number()
 		if wellFormed(g) {
 			sigma := []string{"a", "é", "\n", "x"}
 			if g == g2 {
 				sigma = append(sigma, "\r")
 			}
+			if g == g3 {
+				sigma = []string{"a", "\u2028", "\u0085", "\f", "\n", "x"}
+			}
 			out = append(out, &Case{Family: "F18", G: g, Sigma: sigma, MaxLen: maxLen, Variants: variants, Mode: spec.ModeBehaviour, Entries: []string{"P", "L"}})
 		}
 	}
 	return out
 }
-
 
 // ---------------------------------------------------------------- F19: choices over wide classes
 
@@ -984,7 +1021,6 @@ func F19(maxLen int, variants []string) []*Case {
 	return out
 }
 
-
 // ---------------------------------------------------------------- F20: text that is hostile to printers
 
 // F20: accepted inputs containing printf verbs, quotes, backslashes and control characters, printed
@@ -1002,6 +1038,232 @@ func F20(maxLen int, variants []string) []*Case {
 			ag.Rule{Name: "C", Body: ag.A(alts...)})
 		g.Number()
 		out = append(out, &Case{Family: "F20", G: g, Sigma: sigma, MaxLen: maxLen, Variants: variants, Mode: spec.ModeBehaviour, Print: true, Entries: []string{"W"}})
+	}
+	return out
+}
+
+// ---------------------------------------------------------------- F21: elements that emit no code
+
+// F21: sequences containing elements for which the generator emits nothing (the empty group "()",
+// alone, first, between and last) next to optional and repeated elements, as alternatives of a
+// three-way choice with pairwise disjoint first sets (a switch under -switch) and as a plain body.
+func F21(maxLen int, variants []string) []*Case {
+	e := ag.E
+	opt := func(s string) *ag.Expr { return ag.U(ag.Opt, lit(s)) }
+	shapes := []func() *ag.Expr{
+		func() *ag.Expr { return ag.S(lit("a"), opt("b"), e()) },
+		func() *ag.Expr { return ag.S(lit("a"), e(), opt("b")) },
+		func() *ag.Expr { return ag.S(e(), lit("a"), opt("b")) },
+		func() *ag.Expr { return ag.S(lit("a"), ag.U(ag.Star, lit("b")), e(), e()) },
+		func() *ag.Expr { return ag.S(lit("a"), ag.A(lit("b"), e()), e()) },
+		func() *ag.Expr { return ag.S(lit("a"), ag.U(ag.Opt, ag.S(lit("b"), e())), ag.U(ag.Opt, e())) },
+		func() *ag.Expr { return ag.S(lit("a"), ag.U(ag.Cap, e()), opt("b"), ag.U(ag.And, e())) },
+		func() *ag.Expr { return ag.S(lit("a"), ag.U(ag.Plus, ag.S(lit("b"), e())), e()) },
+	}
+	var out []*Case
+	idx := 0
+	for _, sh := range shapes {
+		for pos := 0; pos < 3; pos++ {
+			alts := []*ag.Expr{ag.S(lit("c"), lit("d")), ag.S(lit("e"), ag.A(lit("f"), lit("g")))}
+			alts = append(alts[:pos], append([]*ag.Expr{sh()}, alts[pos:]...)...)
+			g := single("F21", idx, ag.S(ag.A(alts...), ag.U(ag.Not, ag.D())))
+			idx++
+			if wellFormed(g) {
+				out = append(out, &Case{Family: "F21", G: g, Sigma: strs('a', 'b', 'c', 'd', 'e', 'f'), MaxLen: maxLen, Variants: variants, Mode: spec.ModeBehaviour})
+			}
+		}
+		g := single("F21", idx, ag.S(sh(), ag.U(ag.Not, ag.D())))
+		idx++
+		if wellFormed(g) {
+			out = append(out, &Case{Family: "F21", G: g, Sigma: strs('a', 'b', 'c'), MaxLen: maxLen, Variants: variants, Mode: spec.ModeBehaviour})
+		}
+	}
+	return out
+}
+
+// ---------------------------------------------------------------- F22: deep and long derivations
+
+// F22: derivations that are deep (nesting beyond 64 and 128 levels) or long (more than 4096 and
+// 65536 tokens, with a rule re-entered at the same offset after backtracking). Inputs are given
+// explicitly; the reference interpreter evaluates them like any other.
+func F22(variants []string, thorough bool) []*Case {
+	var out []*Case
+	nest := ag.G("F22/nest",
+		ag.Rule{Name: "S", Body: ag.S(ag.N("E"), ag.U(ag.Not, ag.D()))},
+		ag.Rule{Name: "E", Body: ag.A(ag.S(lit("("), ag.N("E"), lit(")")), ag.S(ag.U(ag.Cap, lit("x")), ag.Action()))})
+	nest.Number()
+	var deep []string
+	for _, d := range []int{62, 63, 64, 65, 66, 127, 128, 129, 300} {
+		deep = append(deep, strings.Repeat("(", d)+"x"+strings.Repeat(")", d), strings.Repeat("(", d)+"x"+strings.Repeat(")", d-1))
+	}
+	out = append(out, &Case{Family: "F22", G: nest, Sigma: strs('(', 'x', ')'), MaxLen: 2, Extra: deep, Variants: variants, Mode: spec.ModeBehaviour, Print: true, Entries: []string{"E"}})
+	right := ag.G("F22/right",
+		ag.Rule{Name: "S", Body: ag.S(ag.N("L"), ag.U(ag.Not, ag.D()))},
+		ag.Rule{Name: "L", Body: ag.S(ag.N("I"), ag.U(ag.Opt, ag.N("L")))},
+		ag.Rule{Name: "I", Body: lit("a")})
+	right.Number()
+	out = append(out, &Case{Family: "F22", G: right, Sigma: strs('a', 'b'), MaxLen: 2, Extra: []string{strings.Repeat("a", 64), strings.Repeat("a", 65), strings.Repeat("a", 70) + "b", strings.Repeat("a", 200)}, Variants: variants, Mode: spec.ModeBehaviour, Entries: []string{"L"}})
+	long := ag.G("F22/long",
+		ag.Rule{Name: "S", Body: ag.A(ag.S(ag.N("List"), lit(";"), ag.U(ag.Not, ag.D())), ag.S(ag.N("List"), lit("."), ag.U(ag.Not, ag.D())))},
+		ag.Rule{Name: "List", Body: ag.U(ag.Star, ag.N("Item"))},
+		ag.Rule{Name: "Item", Body: rng('a', 'c')})
+	long.Number()
+	lens := []int{255, 256, 4095, 4096, 4097, 5000}
+	if thorough {
+		lens = append(lens, 65535, 65536, 70000)
+	}
+	var longs []string
+	for _, n := range lens {
+		longs = append(longs, strings.Repeat("a", n)+".", strings.Repeat("ab", n/2)+";", strings.Repeat("a", n)+"!")
+	}
+	out = append(out, &Case{Family: "F22", G: long, Sigma: strs('a', '.', ';'), MaxLen: 2, Extra: longs, Variants: variants, Mode: spec.ModeBehaviour, Entries: []string{"List"}})
+	return out
+}
+
+// ---------------------------------------------------------------- F23: chains of rules that begin with each other
+
+// Sentences enumerates strings generated by g from rule start, reading the grammar as a
+// context-free one (predicates and the order of choices ignored; what the strings mean is for the
+// reference interpreter to say): rule references are expanded up to depth, every node keeps at
+// most perNode different strings (shortest first).
+func Sentences(g *ag.Grammar, start string, depth, perNode int) []string {
+	rules := map[string]*ag.Expr{}
+	for _, r := range g.Rules {
+		rules[r.Name] = r.Body
+	}
+	type key struct {
+		e *ag.Expr
+		d int
+	}
+	memo := map[key][]string{}
+	norm := func(ss []string) []string {
+		seen := map[string]bool{}
+		var out []string
+		for _, s := range ss {
+			if !seen[s] {
+				seen[s] = true
+				out = append(out, s)
+			}
+		}
+		sort.SliceStable(out, func(i, j int) bool { return len(out[i]) < len(out[j]) })
+		if len(out) > perNode {
+			out = out[:perNode]
+		}
+		return out
+	}
+	var gen func(e *ag.Expr, d int) []string
+	gen = func(e *ag.Expr, d int) []string {
+		k := key{e, d}
+		if r, ok := memo[k]; ok {
+			return r
+		}
+		memo[k] = nil
+		var out []string
+		switch e.K {
+		case ag.Lit:
+			out = []string{string(e.Runes)}
+		case ag.Class:
+			if len(e.Items) > 0 && !e.Neg {
+				out = []string{string(e.Items[0].Lo)}
+			} else {
+				out = []string{"~"}
+			}
+		case ag.Dot:
+			out = []string{"~"}
+		case ag.Ref:
+			if b, ok := rules[e.Name]; ok && d > 0 {
+				out = gen(b, d-1)
+			}
+		case ag.Seq:
+			out = []string{""}
+			for _, kid := range e.Kids {
+				ks := gen(kid, d)
+				var next []string
+				for _, a := range out {
+					for _, b := range ks {
+						next = append(next, a+b)
+					}
+				}
+				out = norm(next)
+			}
+		case ag.Alt:
+			for _, kid := range e.Kids {
+				out = append(out, gen(kid, d)...)
+			}
+		case ag.Opt:
+			out = append([]string{""}, gen(e.Kids[0], d)...)
+		case ag.Star, ag.Plus:
+			ks := gen(e.Kids[0], d)
+			if e.K == ag.Star {
+				out = append(out, "")
+			}
+			out = append(out, ks...)
+			for _, a := range ks {
+				for _, b := range ks {
+					out = append(out, a+b)
+				}
+			}
+		case ag.Cap:
+			out = gen(e.Kids[0], d)
+		default: // And, Not, Act, Pred, Side, Empty
+			out = []string{""}
+		}
+		out = norm(out)
+		memo[k] = out
+		return out
+	}
+	b, ok := rules[start]
+	if !ok {
+		return nil
+	}
+	return gen(b, depth)
+}
+
+// F23: rules R0..Rd in which every rule begins with its predecessor (behind a consumed bracket)
+// and is first reached from inside it: the first sets the -switch pass needs settle only after
+// d+1 rounds. Inputs are sentences of the grammar and their one-character deletions.
+func F23(variants []string) []*Case {
+	open, cl := []string{"(", "[", "{", "<"}, []string{")", "]", "}", ">"}
+	tail := []string{"q", "w", "v", "t"}
+	leaf := []string{"x", "r", "u", "m"}
+	var out []*Case
+	for d := 2; d <= 4; d++ {
+		var rules []ag.Rule
+		for k := 0; k < d; k++ {
+			name, next := fmt.Sprintf("R%d", k), fmt.Sprintf("R%d", k+1)
+			alts := []*ag.Expr{}
+			if k > 0 {
+				alts = append(alts, ag.S(ag.N(fmt.Sprintf("R%d", k-1)), lit(tail[k-1])))
+			}
+			alts = append(alts, ag.S(lit(open[k]), ag.N(next), lit(cl[k])), lit(leaf[k]))
+			rules = append(rules, ag.Rule{Name: name, Body: ag.A(alts...)})
+		}
+		last := fmt.Sprintf("R%d", d)
+		rules = append(rules, ag.Rule{Name: last, Body: ag.A(ag.S(ag.N(fmt.Sprintf("R%d", d-1)), lit(tail[d-1])), ag.S(lit("("), lit("z")), lit("n"), lit("k"))})
+		g := ag.G(fmt.Sprintf("F23/%d", d), append([]ag.Rule{{Name: "S", Body: ag.S(ag.N("R0"), ag.U(ag.Not, ag.D()))}}, rules...)...)
+		g.Number()
+		if !wellFormed(g) {
+			continue
+		}
+		sent := Sentences(g, "S", 2*d+3, 400)
+		seen := map[string]bool{}
+		var extra []string
+		for _, s := range sent {
+			if len(s) > 40 {
+				continue
+			}
+			for i := -1; i < len(s); i++ {
+				t := s
+				if i >= 0 {
+					t = s[:i] + s[i+1:]
+				}
+				if !seen[t] {
+					seen[t] = true
+					extra = append(extra, t)
+				}
+			}
+		}
+		out = append(out, &Case{Family: "F23", G: g, Sigma: []string{"x", "("}, MaxLen: 1, Extra: extra, Variants: variants, Mode: spec.ModeBehaviour, Entries: []string{"R1", last}})
 	}
 	return out
 }
